@@ -4,6 +4,7 @@ import (
 	"context"
 	"fmt"
 	"sort"
+	"strings"
 
 	"github.com/ipfs/boxo/ipld/merkledag"
 	ft "github.com/ipfs/boxo/ipld/unixfs"
@@ -70,7 +71,7 @@ func DrawDirSpec(t *tape.Tape, o DirOpts) DirSpec {
 	}
 	s.Mined = t.Intn(6)
 	s.MineBit = 6 + t.Intn(15) // 6..20 bits of shared prefix
-	s.Style = t.Intn(7)
+	s.Style = t.Intn(9)
 	s.Seed = t.Raw()
 	for t.Pos() < start+8 {
 		t.Skip(1)
@@ -99,6 +100,10 @@ func Names(s DirSpec) []string {
 			return fmt.Sprintf("%02X%d", byte(r.Next()), i) // hex-looking prefixes
 		case 2:
 			return fmt.Sprintf("n %d é☃", i) // spaces and unicode
+		case 8: // names that look like numbers (list indices, years, negative numbers)
+			return []string{"%d", "0%d", "-%d", "20%02d", "00%d"}[i%5][0:0] + fmt.Sprintf([]string{"%d", "0%d", "-%d", "20%02d", "00%d"}[i%5], i)
+		case 7: // very long names (hundreds to thousands of bytes)
+			return fmt.Sprintf("long%d-", i) + strings.Repeat(string(rune('a'+i%26)), 200+int(r.Next()%3000))
 		case 6: // families {x, <hex digit>x, <two hex digits>x}: a name that
 			// equals another name behind something that looks like a bucket label
 			base := fmt.Sprintf("q%d", i/20)
@@ -118,7 +123,7 @@ func Names(s DirSpec) []string {
 			if i < len(al) {
 				return al[i : i+1]
 			}
-			return al[(i/len(al))%len(al):(i/len(al))%len(al)+1] + al[i%len(al):i%len(al)+1] + fmt.Sprint(i/(len(al)*len(al)))[0:0]
+			return al[(i/len(al))%len(al):(i/len(al))%len(al)+1] + al[i%len(al):i%len(al)+1] + fmt.Sprint(i / (len(al) * len(al)))[0:0]
 		default:
 			return fmt.Sprintf("%x", r.Next()>>uint(r.Next()%40))
 		}
